@@ -51,7 +51,9 @@ class HistoryRun(object):
         self.rows = rows
         self.stats = {'histories': 1, 'upgrade_runs': 0, 'paths': 0,
                       'states': 0, 'finals': 0, 'noop_checks': 0,
-                      'skipped_histories_c01': 0, 'data_conflicts': 0, 'skipped_jumps_c03': 0,
+                      'skipped_histories_c01': 0, 'data_conflicts': 0,
+                      'skipped_jumps_c03': 0,
+                      'jumps_kept_divergence_not_known_c03': 0,
                       'samples': []}
         self.viol = {}
         self.memo = {}
@@ -116,8 +118,40 @@ class HistoryRun(object):
                 if good:
                     good, _d = R.sig_equal(res.sig,
                                            R.load_sig(self.sw[k][1]))
+                if not good and not self.delegated_to_c03(i, steps):
+                    # the divergence is not a recorded C03 finding: the jump
+                    # stays in and is judged by this check's own oracle
+                    good = True
+                    self.stats['jumps_kept_divergence_not_known_c03'] += 1
                 self.clean[(i, k)] = good
         return True
+
+    _c03_cache = {}
+
+    def delegated_to_c03(self, i, steps):
+        """True iff C03's own oracle (W1 vs W2 on this very path, minimised
+        and fingerprinted) explains the batched-vs-stepwise divergence by
+        known C03 findings only."""
+        h = self.hist
+        key = S.canon([h.specs[i], steps, self.rows])
+        if key in self._c03_cache:
+            return self._c03_cache[key]
+        out = False
+        try:
+            pr = c03.PathRunner(h.specs[i], self.rows, ('W2',),
+                                labels=tuple(h.labels()))
+            w1 = pr.w1_full([list(s) for s in steps])
+            if w1 is not None:
+                w1_obs, rb, spec, _idents = w1
+                pr.run_ways([list(s) for s in steps], spec, w1_obs, rb, None)
+                fps = list(pr.viol3)
+                out = bool(fps) and all(
+                    findings.known_entry('C03', fp) is not None
+                    for fp in fps)
+        except ML.Disabled:
+            out = False
+        self._c03_cache[key] = out
+        return out
 
     # -- exploration ---------------------------------------------------------
     def run(self):
@@ -326,6 +360,10 @@ def tasks_for(tier):
         add('two-model-h2', two, 2, 'lite', KINDS + ('RenameModel',
                                                      'DeleteModel'),
             ('D2',))
+        # full menus (type changes, second initial values, db_column) for
+        # the add-then-change histories that the optimiser folds together
+        add('narrow-addchg-full-h2', narrow, 2, 'full',
+            ('AddField', 'ChangeField'), ('D2',))
     else:
         add('narrow-h3', narrow, 3, 'lite', KINDS, ('D2',), 1)
         add('narrow-h3', narrow, 3, 'lite', KINDS, ('D3', 'D4'), 10)
@@ -358,8 +396,10 @@ def run(tier, seed, confirm=True):
         'histories': total['histories'],
         'histories_skipped_step_not_c01_clean':
             total['skipped_histories_c01'],
-        'jumps_skipped_batched_differs_from_stepwise':
+        'jumps_skipped_divergence_is_known_c03_finding':
             total['skipped_jumps_c03'],
+        'jumps_kept_divergence_not_known_c03':
+            total['jumps_kept_divergence_not_known_c03'],
         'final_states_checked': total['finals'],
         'noop_rerun_checks': total['noop_checks'],
         'tasks': {'%s/%s' % k: v for k, v in sorted(names.items())},
@@ -373,8 +413,10 @@ def run(tier, seed, confirm=True):
     return common.finish(PROP, tier, seed, 'model_checking', coverage, coll,
                          t0, confirm=confirm, assumptions=[
         'histories whose single steps are not C01-clean are outside the '
-        'domain; jumps whose batched AppMutator run differs from stepwise '
-        'are left to C03',
+        'domain; a jump whose batched AppMutator run differs from stepwise '
+        'is left out only when C03\'s oracle, run on that very path, '
+        'explains the divergence by recorded C03 findings alone - any other '
+        'divergence stays in and is judged here',
         'D3/D4 (management commands) run on every k-th history '
         '(deterministic stride), D2 on all'])
 
